@@ -184,7 +184,7 @@ impl NodeMon for C01 {
             }
         }
         // complete 20480-triple sweep
-        let sweep = self.variant != Variant::Miri && ((is_scenario(n.tag) && n.ply <= 2) || rng.chance(1, 48));
+        let sweep = self.variant != Variant::Miri && ((is_scenario(n.tag) && (n.ply == 0 || (n.ply <= 2 && rng.chance(1, 5)))) || rng.chance(1, 48));
         if sweep {
             rep.count("ev_full_sweeps");
             let promos = [None, Some(Piece::Queen), Some(Piece::Rook), Some(Piece::Bishop), Some(Piece::Knight)];
